@@ -1,8 +1,9 @@
 """C18 - the reachability analysis is conservative.
 
 proof      : coq/theories/Properties/C18.v (model Model/Reach.v + Model/ReachGen.v, lemmas Proofs/Reach.v, Proofs/ReachTables.v)
-             + exactly one of coq/variants/c18/{Refuted,Repaired}.v (does the regenerated visitor table still miss
-             Defer/Go call arguments?)
+             + coq/variants/c18/{DeferRefuted,DeferRepaired,AssertRefuted,AssertRepaired,Sound}.v: of each pair exactly one compiles
+             (is the defect defer-go-call-args / iface-assert-widening present in the regenerated tables?); Sound.v = the
+             unconditional soundness theorem, compiles iff neither is; a defect that is not a listed finding fails the run
 tie T-gen  : harness/cmd/gentables/gen_reach.go regenerates coq/gen/GenReach.v from value_visitor.go / reachable_functions.go
              and the operand schema of the pinned x/tools ssa package; the finite coverage theorems are re-proved on it
 tie T-dump : harness/cmd/c18dump runs the REAL reachability.FindReachable under the four root selections and dumps operand
@@ -322,13 +323,13 @@ def parse_dump(path):
     with open(path) as f:
         for l in f:
             t = l[0]
-            if t in "VI":
+            if t in "VIA":
                 if t == "I":
                     cur["ninstr_kept"] += 1
                 continue
             p = l.split()
             if t == "P":
-                cur = {"names": {}, "flags": {}, "tagfid": {}, "R": {}, "C": {}, "Q": {}, "ninstr_kept": 0, "nontrivial": 0}
+                cur = {"names": {}, "flags": {}, "tagfid": {}, "R": {}, "C": {}, "D": {}, "Q": {}, "ninstr_kept": 0, "nontrivial": 0}
                 progs[l[2:].strip()] = cur
             elif t == "F":
                 fid = int(p[1])
@@ -340,6 +341,8 @@ def parse_dump(path):
                 cur["R"][int(p[1])] = set(map(int, p[3:]))
             elif t == "C":
                 cur["C"][int(p[1])] = set(map(int, p[3:]))
+            elif t == "D":
+                cur["D"][int(p[1])] = set(map(int, p[3:]))
             elif t == "Q":
                 cur["Q"][p[1]] = int(p[2])
     return progs
@@ -388,47 +391,74 @@ def gap_key(g):
 
 
 # ------------------------------------------------------------------------------------------------ variants
+VARIANTS = {"defer-go-call-args": ("DeferRefuted", "DeferRepaired"), "iface-assert-widening": ("AssertRefuted", "AssertRepaired")}
+
+
 def compile_variants(chk):
-    """compile coq/variants/c18/{Refuted,Repaired}.v against the freshly built development; exactly one is expected to
-    compile.  Returns (state, theorems) with state in 'refuted' | 'repaired' | 'partial' | 'none'."""
+    """compile coq/variants/c18/*.v against the freshly built development.  Of each Refuted/Repaired pair exactly one is
+    expected to compile; Sound.v compiles iff both defects are repaired.
+    Returns (state, theorems, problems): state = {defect key: 'refuted' | 'repaired' | 'partial' | 'contradictory'} plus
+    state['sound'] = bool; problems = obligations that do not check as they should."""
     src = os.path.join(vlib.COQ, "variants", "c18")
     out = os.path.join(vlib.BUILD, "c18", "variants")
     shutil.rmtree(out, ignore_errors=True)
     os.makedirs(out)
     ok = {}
     thms = {}
+    problems = []
     bad_words = re.compile(r"\b(Admitted|admit|Axiom|Parameter|Conjecture)\b")
+    qargs = ["-Q", os.path.join(vlib.COQ, "theories"), "Argot", "-Q", os.path.join(vlib.COQ, "gen"), "ArgotGen", "-Q", out, "C18Var"]
+    names_all = [n for pair in VARIANTS.values() for n in pair] + ["Sound"]
     with vlib._Lock("coq"):
-        for name in ("Refuted", "Repaired"):
+        def one(name):
             txt = open(os.path.join(src, name + ".v")).read()
             if bad_words.search(re.sub(r"\(\*.*?\*\)", "", txt, flags=re.S)):
                 ok[name] = False
-                chk.notes.append("variant %s.v contains a forbidden word" % name)
-                continue
+                problems.append("variant %s.v contains a forbidden word" % name)
+                return
             shutil.copy(os.path.join(src, name + ".v"), out)
-            rc, log = vlib.sh(["coqc", "-Q", os.path.join(vlib.COQ, "theories"), "Argot", "-Q", os.path.join(vlib.COQ, "gen"), "ArgotGen",
-                               "-Q", out, "C18Var", name + ".v"], timeout=600, cwd=out)
+            rc, log = vlib.sh(["coqc"] + qargs + [name + ".v"], timeout=900, cwd=out)
             ok[name] = rc == 0
-            if rc == 0:
-                names = vlib.theorems_of(os.path.join(src, name + ".v"))
-                pa = os.path.join(out, "PA_" + name + ".v")
-                with open(pa, "w") as f:
-                    f.write("From C18Var Require Import %s.\n" % name)
-                    for n in names:
-                        f.write('Goal True. idtac "@@BEGIN %s". Abort.\nPrint Assumptions %s.\nGoal True. idtac "@@END". Abort.\n' % (n, n))
-                rc2, o2 = vlib.sh(["coqc", "-Q", os.path.join(vlib.COQ, "theories"), "Argot", "-Q", os.path.join(vlib.COQ, "gen"), "ArgotGen",
-                                   "-Q", out, "C18Var", pa], timeout=600, cwd=out)
-                for m in re.finditer(r"@@BEGIN (\S+)\n(.*?)@@END", o2, flags=re.S):
-                    thms[m.group(1)] = m.group(2).strip().replace("\n", " ")[:300]
-                for n in names:
-                    thms.setdefault(n, "ERROR: no Print Assumptions output")
-    if ok.get("Refuted") and not ok.get("Repaired"):
-        return "refuted", thms
-    if ok.get("Repaired") and not ok.get("Refuted"):
-        return "repaired", thms
-    if ok.get("Repaired") and ok.get("Refuted"):
-        return "none", thms      # contradictory: cannot happen with a sound kernel
-    return "partial", thms
+            if rc == 124:
+                problems.append("variant %s.v: coqc timed out" % name)
+
+        ths = [threading.Thread(target=one, args=(n,)) for n in names_all]
+        for t in ths:
+            t.start()
+        for t in ths:
+            t.join()
+        compiled = [n for n in names_all if ok.get(n)]
+        if compiled:
+            pa = os.path.join(out, "PA_variants.v")
+            with open(pa, "w") as f:
+                for name in compiled:
+                    f.write("From C18Var Require %s.\n" % name)
+                for name in compiled:
+                    for n in vlib.theorems_of(os.path.join(src, name + ".v")):
+                        f.write('Goal True. idtac "@@BEGIN %s.%s". Abort.\nPrint Assumptions %s.%s.\nGoal True. idtac "@@END". Abort.\n'
+                                % (name, n, name, n))
+                        thms["%s.%s" % (name, n)] = "ERROR: no Print Assumptions output"
+            rc2, o2 = vlib.sh(["coqc"] + qargs + [pa], timeout=900, cwd=out)
+            for m in re.finditer(r"@@BEGIN (\S+)\n(.*?)@@END", o2, flags=re.S):
+                thms[m.group(1)] = m.group(2).strip().replace("\n", " ")[:300]
+    state = {}
+    for key, (ref, rep) in VARIANTS.items():
+        if ok.get(ref) and not ok.get(rep):
+            state[key] = "refuted"
+        elif ok.get(rep) and not ok.get(ref):
+            state[key] = "repaired"
+        elif ok.get(rep) and ok.get(ref):
+            state[key] = "contradictory"
+            problems.append("%s.v and %s.v both compile" % (ref, rep))
+        else:
+            state[key] = "partial"      # neither compiles: e.g. only one of Defer / Go repaired
+    state["sound"] = bool(ok.get("Sound"))
+    if all(state[k] == "repaired" for k in VARIANTS) and not state["sound"]:
+        problems.append("Sound.v (reach_sound_now) does not compile although both defects are repaired")
+    for n, t in thms.items():
+        if "Closed under the global context" not in t:
+            problems.append("variant theorem %s: %s" % (n, t[:80]))
+    return state, thms, problems
 
 
 # ------------------------------------------------------------------------------------------------ the check
@@ -478,15 +508,20 @@ def run(chk):
     if changed:
         chk.notes.append("regenerated tables changed: %s" % ",".join(changed))
     failed = chk.prove("theories/Properties/C18.v")
-    variant, vthms = ("none", {}) if failed else compile_variants(chk)
+    listed = {k["key"] for k in vlib.load_known() if k["property"] == PROP}
+    vstate, vthms, vproblems = ({}, {}, []) if failed else compile_variants(chk)
     if not failed:
-        chk.cov["obligations"] += max(1, len(vthms))
-        okv = [n for n, t in vthms.items() if "Closed under the global context" in t]
-        chk.cov["discharged"] += len(okv) if variant in ("refuted", "repaired") else 0
+        chk.cov["obligations"] += max(len(VARIANTS) + 1, len(vthms))
+        chk.cov["discharged"] += len([n for n, t in vthms.items() if "Closed under the global context" in t])
         chk.cov["theorems"].update({"variant:" + n: t for n, t in vthms.items()})
-        if variant == "none" or len(okv) != len(vthms):
-            failed = list(failed) + ["variants/c18 (Refuted.v / Repaired.v)"]
-    chk.cov["table_state"] = variant
+        failed = list(failed) + vproblems
+        for key in VARIANTS:
+            # a defect that is not a listed finding must be absent from the regenerated tables
+            if vstate.get(key) != "repaired" and key not in listed:
+                chk.cov["obligations"] += 1
+                failed.append("variants/c18/%s.v (table state of %s: %s; not a listed finding)" % (VARIANTS[key][1], key, vstate.get(key)))
+    variant = ",".join("%s=%s" % (k, vstate.get(k)) for k in sorted(VARIANTS)) + ",sound=%s" % vstate.get("sound")
+    chk.cov["table_state"] = vstate
     t_proved = time.time()
 
     # ---- T-dump: real FindReachable + facts -> extracted model
@@ -578,9 +613,12 @@ def run(chk):
                                  % (pname, SELS[s], [ip["names"][f] for f in sorted(extra)][:20], pname))
                     violation("not-in-allfunctions", "reported set not contained in the set of all functions (%s, %s): e.g. %s"
                                   % (short, SELS[s], ip["names"][min(extra)]), d)
-                if s in ip["C"]:
+                if s in ip["D"]:
                     stats["cg_checked"] += 1
-                    miss = ip["C"][s] - R
+                    # raw CallGraphReachable also follows edges to closures whose enclosing function is not reachable (the pointer
+                    # analysis generates constraints for every function): those cannot execute; recorded only
+                    stats["cg_unrealizable_excess"] = stats.get("cg_unrealizable_excess", 0) + len(ip["C"].get(s, set()) - ip["D"][s] - R)
+                    miss = ip["D"][s] - R
                     if miss and s != 0:
                         # The pointer analysis is whole-program: with main or init excluded, CallGraphReachable still follows dynamic
                         # edges whose targets only exist because of code run from the excluded root (e.g. a closure created in a
@@ -590,8 +628,9 @@ def run(chk):
                         names = [ip["names"][f] for f in sorted(miss)][:20]
                         d = chk.replay_dir("cg-not-contained:" + short + str(s))
                         write_replay(d, "program %s, selection %s: functions reachable in the pointer-analysis call graph "
-                                     "(dataflow.CallGraphReachable) but not reported by reachability.FindReachable: %s\n"
-                                     "re-run: build/bin/c18dump -cg -o x.dump %s ; compare the C and R lines" % (pname, SELS[s], names, pname),
+                                     "(dataflow.CallGraphReachable restricted to realizable edges: closures only once their parent is reached) but "
+                                     "not reported by reachability.FindReachable: %s\n"
+                                     "re-run: build/bin/c18dump -cg -o x.dump %s ; compare the D and R lines" % (pname, SELS[s], names, pname),
                                      [(os.path.join(pname, "main.go"), "main.go")])
                         # classify through the certificate gaps when possible
                         keys = {}
@@ -695,7 +734,7 @@ def run(chk):
                     chk.notes.append("generated scenarios whose driver did not execute: %s" % notrun[:10])
             else:
                 chk.sample({"program": short, "functions": len(ip["names"]), "reported": {SELS[s]: len(ip["R"].get(s, ())) for s in range(4)},
-                            "cg_reachable": {SELS[s]: len(v) for s, v in ip["C"].items()}})
+                            "cg_reachable": {SELS[s]: len(v) for s, v in ip["D"].items()}})
             # non-trivial inputs: functions of the program with at least one kept instruction are counted by the dumper
             stats["instructions_with_function_operands"] = stats.get("instructions_with_function_operands", 0) + ip["ninstr_kept"]
 
@@ -714,8 +753,9 @@ def run(chk):
     stale = [k["key"] for k in vlib.load_known() if k["property"] == PROP and k["key"] not in hit]
     if stale:
         chk.cov["stale_known_finding"] = stale
-    if variant == "refuted" and "defer-go-call-args" not in hit and not [v for v in chk.viol if v[0] == "defer-go-call-args"]:
-        chk.notes.append("table still lacks Defer/Go call arguments but the native search did not exhibit a missed function")
+    for key in VARIANTS:
+        if vstate.get(key) == "refuted" and key in listed and key not in hit:
+            chk.notes.append("the regenerated tables still show the listed defect %s but the native search did not exhibit a missed function" % key)
 
     chk.cov["evaluations"] = stats["set_comparisons"] + stats["native_tags"] + stats["cg_checked"]
     chk.cov["distinct_nontrivial"] = len(distinct) + stats["programs"] * 4
@@ -729,11 +769,11 @@ def run(chk):
     stats["phases_s"] = {"build+prove": round(t_proved - t0, 1), "dump+model+native": round(t_dumped - t_proved, 1)}
     chk.cov["distribution"] = stats
     chk.cov["partial_or_refuted"] = {
-        "reach_sound": "proved for all tables with operand_cover = true and programs without interface-to-interface widening (iface_cover)",
-        "reach_sound_partial": "proved for the checked tree: sound on every program without a function constant among Defer/Go call arguments and "
-                               "without a method callable only after an interface assertion",
-        "operand_cover_refuted / reach_sound_refuted_defer_arg": "variants/c18/Refuted.v compiles iff the defect is present (state: %s)" % variant,
-        "reach_sound_refuted_iface_assert": "refuted by a concrete model program; confirmed natively (finding iface-assert-widening)",
+        "reach_sound_full / Sound.reach_sound_now": "full statement; Sound.v compiles iff the regenerated tables show neither defect (now: %s)" % vstate.get("sound"),
+        "reach_sound": "all tables with operand_cover = true; side condition iface_cover (discharged by AssertRepaired.iface_cover_discharged when repaired)",
+        "reach_sound_partial": "holds of any tree whose only uncovered operand fields are Defer/Go call arguments: sound on every program "
+                               "without such an argument and without a method callable only after an interface assertion",
+        "DeferRefuted / AssertRefuted (_refuted witnesses)": "compile iff the respective defect is present (state: %s)" % variant,
     }
     chk.assumptions += [
         "abstract execution model (Proofs/Reach.v executed): functions are entered only from the roots, through a *ssa.Function constant that is "
@@ -742,7 +782,11 @@ def run(chk):
         "operand fields classified as unable to hold a function constant (Model/ReachGen.v nonfun_names) are checked on every dumped program "
         "(wf_ops): %d programs, %d failures" % (stats["programs"], stats["wf_failures"]),
         "native ground truth covers the functions of the generated main package only (they log their entry); default root selection",
-        "reported >= dataflow.CallGraphReachable is an alarm for the default root selection; with -nomain/-noinit the pointer analysis still "
+        "reported >= dataflow.CallGraphReachable is checked on the realizable part of the pointer call graph (an edge to an anonymous function "
+        "is followed only once its enclosing function is reached; the pointer analysis generates constraints for all functions, so raw "
+        "reachability includes e.g. os.chmod$1 via os.ignoringEINTR although os.chmod is unreachable: %d such functions this run) and "
+        % stats.get("cg_unrealizable_excess", 0) +
+        "is an alarm for the default root selection; with -nomain/-noinit the pointer analysis still "
         "analyses the whole program, so its dynamic edges may exist only because of the excluded root: the excess (%d functions this run) is "
         "recorded in distribution.cg_excess_nondefault, not alarmed" % stats.get("cg_excess_nondefault", 0),
         "x/tools SSA construction and ssautil.AllFunctions are trusted; operand fields are read by reflection and cross-checked with Instruction.Operands()",
